@@ -107,7 +107,7 @@ def _loop_count(ctx, f, pr, bb, loops):
                     hi = int(parts[1][6:])
                     if re.match(r"^const:\d+$", parts[0]):
                         return hi - int(parts[0][6:])
-                    if parts[0].startswith("Vec::len(") or "::len(" in parts[0]:
+                    if parts[0].startswith("len(") or parts[0].startswith("Vec::len(") or "::len(" in parts[0]:
                         return ("K-n", parts[0], hi)
             n = None
             # iterating an array field / local array
@@ -130,6 +130,48 @@ def _loop_count(ctx, f, pr, bb, loops):
                 if n is not None:
                     return n
                 return ("n", src)
+    return _counter_count(ctx, f, h, body)
+
+
+def _counter_count(ctx, f, header, body):
+    """Trip count of a `while i < K { ..; i += 1 }` loop: K - init, with init a constant or a length."""
+    from rules_sink import guards, _edge_label, _loop_cycle_passes
+    v = view(ctx, f)
+    g = guards(ctx, f)
+    pr = g.prov
+    names = {nm: l for l, nm in f.debug_names().items()}
+    for b in body:
+        if f.blocks[b]["term"]["t"] != "switch":
+            continue
+        for k, tgt in enumerate(f.succ(b)):
+            if tgt in body or f.blocks[tgt]["cleanup"]:
+                continue
+            val, vals = _edge_label(f, b, k)
+            for a in g.describe_all(b, val, vals):
+                m = re.match(r"^\(Ge\((var:\w+),const:(\d+)\)\)$", a)
+                if not m:
+                    continue
+                var, hi = m.group(1), int(m.group(2))
+                l = names.get(var[4:])
+                if l is None:
+                    continue
+                incs, inits, bad = set(), [], False
+                for d in pr.defs.get(l, []):
+                    dp = pr._def(d, 0, ())
+                    if d[0] in body:
+                        if dp == "Add(%s,const:1)" % var:
+                            incs.add(("t", d[0]) if d[1] == "t" else ("s", d[0], d[1]))
+                        else:
+                            bad = True
+                    else:
+                        inits.append(dp)
+                if bad or not incs or len(inits) != 1 or not _loop_cycle_passes(v.pg, f, header, body, incs):
+                    continue
+                init = inits[0]
+                if re.match(r"^const:\d+$", init):
+                    return hi - int(init[6:])
+                if init.startswith("len(") or "::len(" in init:
+                    return ("K-n", init, hi)
     return None
 
 
@@ -284,6 +326,7 @@ def run(pid):
         res = RuleResult("R-LAYOUT(%s)" % pid, "reader and writer of the directory entry / header agree field for field and width for width; totals equal the format constants; in-place patch offsets equal the derived field offsets")
         tbl = ctx.table("layout")
         n = 0
+        abstained = False
         for pair in tbl.get("pairs", []):
             if pid not in pair.get("properties", [pid]):
                 continue
@@ -299,7 +342,8 @@ def run(pid):
             n += 1
             if rtot is None or wtot is None:
                 res.unclassified.append({"pair": pair["name"], "note": "layout not derivable on this tree (a loop count or width could not be reduced to a constant)", "reader": [(e["width"], str(e["count"]), e["field"]) for e in rs], "writer": [(e["width"], str(e["count"]), e["field"]) for e in ws]})
-                if ctx.table("floors").get("layout_must_derive", True):
+                abstained = True
+                if ctx.is_reference_tree():
                     res.fail(Finding(res.rule, key + "/underivable", "the layout of %s could not be derived (reader total %s, writer total %s)" % (pair["name"], rtot, wtot), fr))
                 continue
             if rtot != pair["total"] or wtot != pair["total"]:
@@ -341,7 +385,8 @@ def run(pid):
                     res.fail(Finding(res.rule, key + "/patch-offset/%s" % patch["field"], "%s: field %s lives at offset %d in the serialiser but is patched in place at offset %d (%s)" % (pair["name"], patch["field"], want, got, patch["where"]), fw))
                 else:
                     res.ok({"pair": pair["name"], "patched_field": patch["field"], "offset": got, "where": patch["where"]})
-        res.floor("layout obligations", n, ctx.table("floors").get("layout_" + pid, 0))
+        # a serialiser rewritten into a shape the walker cannot reduce is an abstention, not an alarm (the floor only binds where every pair was derived)
+        res.floor("layout obligations", n, 0 if abstained else ctx.table("floors").get("layout_" + pid, 0))
         return r_fix(res)
     return r
 
